@@ -133,6 +133,7 @@ def _parse_macros(text):
         e2 = ident.sub(sub, e)
         if bad or not _SAFE.match(e2):
             return None
+        e2 = _re.sub(r"(?<![0-9a-zA-Z.])0([0-7]+)\b", r"0o\1", e2)  # C octal literals
         try:
             val = eval(e2, {"__builtins__": {}}, {})
         except Exception:
